@@ -583,7 +583,9 @@ func c18Ops(rich bool) func(key string, hist []ROp) []ROp {
 			ops = append(ops,
 				ROp{Kind: "read", H: h, Off: 2, N: 70000}, ROp{Kind: "read", H: h, Off: 3, N: 0}, ROp{Kind: "read", H: h, Off: 1, N: 1},
 				ROp{Kind: "write", H: h, Off: 2, N: 0}, ROp{Kind: "write", H: h, Off: 3, N: 1}, ROp{Kind: "write", H: h, Off: 2, N: 1},
-				ROp{Kind: "trunc", H: h, Off: 0}, ROp{Kind: "trunc", H: h, Off: 1}, ROp{Kind: "trunc", H: h, Off: 9})
+				ROp{Kind: "trunc", H: h, Off: 0}, ROp{Kind: "trunc", H: h, Off: 1}, ROp{Kind: "trunc", H: h, Off: 9},
+				// lengths between a shortened file's size and its earlier size
+				ROp{Kind: "trunc", H: h, Off: 2}, ROp{Kind: "trunc", H: h, Off: 3})
 		}
 		return ops
 	}
